@@ -51,7 +51,7 @@ SEEDS = {'quick': ['0', '1', '2', 'random'], 'thorough': ['0', '1', '2', '3', '4
 
 
 def valid(case):
-    if case.get('kind') not in ('purity', 'repeat', 'seeds') or case.get('input') not in ('json', 'xml'):
+    if case.get('kind') not in ('purity', 'repeat', 'seeds') or case.get('input') not in ('json', 'xml', 'yaml'):
         return False
     if case['input'] == 'xml':
         return gen.valid_case({'family': 'xml', 'a': case['a'], 'b': case['b']})
@@ -87,8 +87,45 @@ def arg_vectors(draw):
     return args
 
 
+MIXED_KEYS = [1, '1', True, 'true', 'True', 2.5, '2.5', 0, '0', 'a', 10, '10', False, 'false']
+TEXTS = ['one line', 'one lime', 'first\nsecond', 'first\nsecund\n', 'abstract text', 'abstract test', 'a\nb\nc', 'a\nb\nd', '', 'x']
+
+
+@st.composite
+def yaml_key_cases(draw, kind):
+    """YAML documents whose mappings mix key types with equal spellings (1 and "1", true and "true"): canonical order between
+    such keys must not come from anything that varies between processes"""
+    vals = st.sampled_from([1, 'x', 'x', 5, None])
+
+    def mapping():
+        ks = draw(st.lists(st.sampled_from(MIXED_KEYS), min_size=2, max_size=5, unique_by=lambda k: (type(k).__name__, k)))
+        return {'__pairs__': [[k, draw(vals)] for k in ks]}
+    a, b = mapping(), mapping()
+    if draw(st.booleans()):
+        a, b = {'__pairs__': [['m', a], ['n', 1]]}, {'__pairs__': [['m', b]]}
+    return {'kind': kind, 'input': 'yaml', 'a': a, 'b': b, 'args': draw(arg_vectors()), 'via': 'yaml'}
+
+
+@st.composite
+def text_cases(draw, kind):
+    """documents of one-line and multi-line strings, some edited: formatters that keep per-string state (block style, quoting)
+    must start every string, every document and every invocation afresh"""
+    keys = draw(st.lists(st.sampled_from(['abstract', 'title', 'body', 'note', 'z']), min_size=1, max_size=4, unique=True))
+    a = {k: draw(st.sampled_from(TEXTS)) for k in keys}
+    b = {k: (draw(st.sampled_from(TEXTS)) if draw(st.booleans()) else v) for k, v in a.items()}
+    args = draw(arg_vectors())
+    if '--format' not in args and draw(st.integers(0, 2)) > 0:
+        args = args + ['--format', draw(st.sampled_from(['yaml', 'yaml', 'plist', 'csv']))]
+    return {'kind': kind, 'input': 'json', 'a': a, 'b': b, 'args': args, 'via': 'json'}
+
+
 @st.composite
 def cases(draw, kind):
+    k0 = draw(st.integers(0, 9))
+    if k0 == 0:
+        return draw(yaml_key_cases(kind))
+    if k0 <= 2:
+        return draw(text_cases(kind))
     if draw(st.integers(0, 5 if kind == 'seeds' else 3)) == 0:
         x = draw(gen.xml_cases(5))
         a, b, inp = x['a'], x['b'], 'xml'
@@ -141,7 +178,14 @@ def write_inputs(case, d=None):
     import xml.etree.ElementTree as ET
     d = d or scratch_dir()
     h = case_hash([case['a'], case['b'], case['input']])
-    if case['input'] == 'json':
+    if case['input'] == 'yaml':
+        import yaml
+        from .c08 import decode_pairs
+        pa, pb = os.path.join(d, f'a{h}.yml'), os.path.join(d, f'b{h}.yml')
+        for p, doc in ((pa, case['a']), (pb, case['b'])):
+            with open(p, 'w') as f:
+                yaml.safe_dump(decode_pairs(doc), f, sort_keys=False)
+    elif case['input'] == 'json':
         pa, pb = os.path.join(d, f'a{h}.json'), os.path.join(d, f'b{h}.json')
         for p, doc in ((pa, case['a']), (pb, case['b'])):
             with open(p, 'w') as f:
@@ -250,12 +294,14 @@ def check_purity(case, out):
         le = 'same'
     fam = {'family': case['input'], 'a': case['a'], 'b': case['b'], 'ds': ds, 'le': le}
     a = b = None
-    if case['input'] == 'json' and case.get('via') == 'yaml':
+    if case['input'] == 'yaml' or (case['input'] == 'json' and case.get('via') == 'yaml'):
         # the same documents loaded through the YAML file type: its strings are unquoted (quoted=False)
         try:
             import yaml
+            from .c08 import decode_pairs
             opts = common.build_options(ds, le)
-            pa, pb = cli.write_file(yaml.safe_dump(case['a']), 'yml', name='pa'), cli.write_file(yaml.safe_dump(case['b']), 'yml', name='pb')
+            pa = cli.write_file(yaml.safe_dump(decode_pairs(case['a']), sort_keys=False), 'yml', name='pa')
+            pb = cli.write_file(yaml.safe_dump(decode_pairs(case['b']), sort_keys=False), 'yml', name='pb')
             try:
                 ft = graphtage.FILETYPES_BY_TYPENAME['yaml']
                 a, b = ft.build_tree(pa, opts), ft.build_tree(pb, opts)
@@ -264,6 +310,9 @@ def check_purity(case, out):
             out.label('purity-via-yaml-loader')
         except Exception:
             a = b = None
+    if a is None and case['input'] == 'yaml':
+        out.skipped = 'yaml-loader-rejected-document'
+        return fam
     if a is None:
         with guard('build'):
             a, b = gen.build(fam, 'a'), gen.build(fam, 'b')
